@@ -1,4 +1,4 @@
-#!/opt/veriftools/pyvenv/bin/python
+#!/opt/veriftools/pyvenv/bin/python3
 import json,jsonschema,sys,glob
 jsonschema.validate(json.load(open('/verif/MANIFEST.json')),json.load(open('/root/.vp/MANIFEST.schema.json')))
 es=json.load(open('/root/.vp/EVIDENCE.schema.json'))
